@@ -124,6 +124,25 @@ fn scenarios() -> Vec<Scenario> {
             });
         }
     }
+    // every snapshot forgotten before: the prune marks *all* packs (its new index lists marked packs
+    // only) while the backup re-uses blobs of them
+    {
+        let env = Env::from_store(store.clone());
+        let repo = env.open().expect("open");
+        let ids: Vec<_> = repo.get_all_snapshots().unwrap().iter().map(|s| s.id).collect();
+        repo.delete_snapshots(&ids).expect("forget");
+        for swap in [false, true] {
+            let b = Kind::Prune { name: "mark" };
+            let a1 = Kind::Backup { version: 1, label: "a" };
+            v.push(Scenario {
+                name: format!("backup||prune-mark-all-forgotten{}", if swap { "/other-first" } else { "" }),
+                store: env.store(),
+                cmds: if swap { vec![b, a1] } else { vec![a1, b] },
+                base: BTreeMap::new(),
+                control: false,
+            });
+        }
+    }
     v.push(Scenario {
         name: "CONTROL/backup||prune-then-24h-then-prune".into(),
         store,
